@@ -249,6 +249,7 @@ def _pub_fields(text):
     if kw != 'struct':
         return text
     ins = []
+    dels = []
     try:
         b = next(i for i, t in enumerate(toks) if t.text in ('{', '(') and t.kind == 'punct' and i > 1)
     except StopIteration:
@@ -276,8 +277,10 @@ def _pub_fields(text):
         t = toks[i]
         if start_of_field and depth == 0:
             if t.text == 'pub':
-                # skip pub(..)
-                pass
+                # `pub(crate)` / `pub(super)` / `pub(in ..)`: widen to plain `pub` (restricted visibility makes the datatype opaque to contracts)
+                if i + 1 < e and toks[i + 1].text == '(':
+                    c = match_close(toks, i + 1)
+                    dels.append((toks[i + 1].start, toks[c].end))
             else:
                 ins.append(t.start)
             start_of_field = False
@@ -289,8 +292,9 @@ def _pub_fields(text):
             elif t.text == ',' and depth == 0:
                 start_of_field = True
         i += 1
-    for p in sorted(ins, reverse=True):
-        text = text[:p] + 'pub ' + text[p:]
+    edits = [(p, p, 'pub ') for p in ins] + [(a, b, '') for a, b in dels]
+    for a, b, rep in sorted(edits, reverse=True):
+        text = text[:a] + rep + text[b:]
     return text
 
 
